@@ -50,11 +50,20 @@ func (t sstTarget) term() string {
 	return fmt.Sprintf("T (TX %s %d) %d", corr.Hex(unhex(t.Base)), t.Ver, t.MaxVs)
 }
 
+// sstSeq: Seek every listed target (index into Targets) in turn on ONE iterator.
+type sstSeq struct {
+	Asc     bool  `json:"asc"`
+	Targets []int `json:"targets"`
+}
+
+const sstSeqLimit = 2
+
 type sstDesc struct {
 	BlockSize int         `json:"block_size"`
 	BloomFP   float64     `json:"bloom_fp"`
 	Entries   []sstEnt    `json:"entries"`
 	Targets   []sstTarget `json:"targets"`
+	Seqs      []sstSeq    `json:"seqs,omitempty"`
 }
 
 const sstSeekLimit = 3
@@ -119,6 +128,7 @@ type sstStats struct {
 	hits       int
 	misses     int
 	bloomLen   int
+	seqSeeks   int
 }
 
 // observe prints one `obs` term for an open table.
@@ -185,8 +195,27 @@ func observe(st *lsm.VerifSST, es []lsm.VerifEntry, d *sstDesc, stats *sstStats)
 		}
 		qs = append(qs, fmt.Sprintf("R %s %s %s", corr.OptionStr("("+oent(idx, es, e)+")", found), ents(fw), ents(rv)))
 	}
-	return fmt.Sprintf("(O %s %s %d %d %s %s %s)", corr.List(lay), corr.Hex(bloom), maxVer, keyCount,
-		olist(es, fwd), olist(es, rev), corr.List(qs)), nil
+	var sqs []string
+	for _, sq := range d.Seqs {
+		var keys [][]byte
+		idxs := make([]string, len(sq.Targets))
+		for i, ti := range sq.Targets {
+			keys = append(keys, d.Targets[ti].key(d))
+			idxs[i] = fmt.Sprint(ti)
+		}
+		res, err := st.SeekSeq(keys, sq.Asc, sstSeqLimit)
+		if err != nil {
+			return "", fmt.Errorf("SeekSeq: %w", err)
+		}
+		rs := make([]string, len(res))
+		for i, r := range res {
+			rs[i] = ents(r)
+		}
+		sqs = append(sqs, fmt.Sprintf("SQ %s %s %s", corr.Bool(sq.Asc), corr.List(idxs), corr.List(rs)))
+		stats.seqSeeks += len(keys)
+	}
+	return fmt.Sprintf("(OS %s %s %d %d %s %s %s %s)", corr.List(lay), corr.Hex(bloom), maxVer, keyCount,
+		olist(es, fwd), olist(es, rev), corr.List(qs), corr.List(sqs)), nil
 }
 
 var sstFid uint64
@@ -257,6 +286,7 @@ func sstCase(c *corr.Ctx, d *sstDesc) (corr.Case, error) {
 	c.CountN("search_misses", s1.misses)
 	c.CountN("seek_targets_between_blocks", s1.gapTargets)
 	c.CountN("entries", len(es))
+	c.CountN("repeated_seeks_on_one_iterator", s1.seqSeeks)
 	if withBloom {
 		c.Count("with_bloom")
 	}
@@ -391,13 +421,21 @@ func genSstDesc(r *rand.Rand, maxEntries, maxTargets int) *sstDesc {
 		}
 		d.Targets = append(d.Targets, t)
 	}
+	// repeated Seeks on one iterator, jumping between blocks, both directions
+	for _, asc := range []bool{true, false} {
+		sq := sstSeq{Asc: asc}
+		for i := 0; i < 8 && len(d.Targets) > 0; i++ {
+			sq.Targets = append(sq.Targets, r.Intn(len(d.Targets)))
+		}
+		d.Seqs = append(d.Seqs, sq)
+	}
 	return d
 }
 
 func runSst(c *corr.Ctx) error {
 	c.Meta("run_module", "RunSst")
 	c.Meta("exhaustive", false)
-	c.Meta("rule", "random sorted entry sets (1..24 entries, every 40th case up to 120; user keys over {a,b,00,ff} with optional long shared prefix, with and without CF marker; 11 versions incl. 0 and 2^64-1; values 0..40 bytes, sometimes 300 or 4200; meta/expiry at varint boundaries), block sizes {40,64,100,150,256,4096}, bloom fp {0,0.0001,0.01,0.3}; targets = every stored key, version +-1, max, 0, key++00, key minus last byte, random; Search(maxVs 0 / own version / random), Seek+3*Next both directions, full iteration both directions, block index, bloom bytes; all repeated after reopening the file. non-trivial = >= 2 blocks and at least one forward seek target strictly between the last key of a block and the next base key")
+	c.Meta("rule", "random sorted entry sets (1..24 entries, every 40th case up to 120; user keys over {a,b,00,ff} with optional long shared prefix, with and without CF marker; 11 versions incl. 0 and 2^64-1; values 0..40 bytes, sometimes 300 or 4200; meta/expiry at varint boundaries), block sizes {40,64,100,150,256,4096}, bloom fp {0,0.0001,0.01,0.3}; targets = every stored key, version +-1, max, 0, key++00, key minus last byte, random; Search(maxVs 0 / own version / random), Seek+3*Next both directions, 8..12 repeated Seeks on ONE iterator per direction jumping between blocks (incl. two key families aaaa-/bbbb- sharing no prefix), full iteration both directions, block index, bloom bytes; all repeated after reopening the file. non-trivial = >= 2 blocks and at least one forward seek target strictly between the last key of a block and the next base key")
 	if c.Replay != "" {
 		cases, err := c.ReplayCases()
 		if err != nil {
@@ -432,6 +470,34 @@ func runSst(c *corr.Ctx) error {
 			for _, v := range []uint64{10, 9, 5, 3, 2} {
 				d.Targets = append(d.Targets, sstTarget{Idx: 2 * i, Ver: v})
 			}
+		}
+		cs, err := sstCase(c, d)
+		if err != nil {
+			return err
+		}
+		c.Emit(cs)
+	}
+	// two key families whose base keys share no prefix, many blocks, one iterator
+	// re-positioned from family to family (stale block-iterator state must not leak)
+	for _, bs := range []int{128, 64} {
+		d := &sstDesc{BlockSize: bs, BloomFP: 0.01}
+		for _, fam := range []string{"aaaa-", "bbbb-"} {
+			for i := 0; i < 24; i++ {
+				k := kv.KeyWithTs([]byte(fmt.Sprintf("%s%04d", fam, i*5)), 7)
+				d.Entries = append(d.Entries, sstEnt{Key: hex.EncodeToString(k), Val: strings.Repeat("62", 20)})
+			}
+		}
+		for i := 0; i < 48; i += 3 {
+			d.Targets = append(d.Targets, sstTarget{Idx: i, Ver: 7}, sstTarget{Idx: i, Ver: 9}, sstTarget{Idx: i, Ver: 2})
+		}
+		nt := len(d.Targets)
+		for _, asc := range []bool{true, false} {
+			sq := sstSeq{Asc: asc}
+			for i := 0; i < 12; i++ {
+				// alternate between the a-family (first half of the targets) and the b-family
+				sq.Targets = append(sq.Targets, c.Rng.Intn(nt/2)+(i%2)*(nt/2))
+			}
+			d.Seqs = append(d.Seqs, sq)
 		}
 		cs, err := sstCase(c, d)
 		if err != nil {
